@@ -312,7 +312,7 @@ class Gen:
 
     def __init__(self, draw, registry=False, failures=False, opaque=True, flaky=False,
                  late=False, xdeps=False, alias=False, lits=1, shared=False, sread=False, exotic=False,
-                 foreign=False):
+                 foreign=False, store_args=False):
         self.draw = draw
         self.nodes = []
         self.registry = registry
@@ -328,6 +328,7 @@ class Gen:
         self.shared = shared
         self.sread = sread
         self.exotic = exotic  # exotic exception types and callables (C06)
+        self.store_args = store_args  # value-store objects of the registry passed as plain arguments (C13)
         self.foreign = foreign  # sources created through a registry that is not the one passed to run (C14)
         self.lits = lits  # weight of literal nodes / literal chains in add_any
         self.lit_refs = []
@@ -349,6 +350,11 @@ class Gen:
             choices += ["T"] if hashable else ["L", "T", "S", "D"]
             if self.opaque and not hashable and depth < 2:
                 choices.append("O")
+        if self.store_args and not hashable and depth <= 1:
+            ents = [i for i, nd in enumerate(self.nodes)
+                    if (nd["k"] == "src" and nd.get("foreign") in (None, False, "added")) or nd.get("stored")]
+            if ents and d(st.integers(0, 7)) == 0:
+                return {"st": d(st.sampled_from(ents))}
         k = d(st.sampled_from(choices))
         if want_node and pool and depth == 0 and k == "c":
             k = "n"
@@ -595,7 +601,10 @@ class Gen:
                 return self.add(node, hashable=True)
         if self.foreign and d(st.integers(0, 2)) == 0:
             # never transformed: executing it raises NotTransformedError (it is a plain failing call for run)
-            return self.add({"k": "src", "deps": [], "scope": self.scope(), "foreign": True}, hashable=True)
+            kind = d(st.sampled_from([True, "added"])) if self.store_args else True
+            # "added": the placeholder created by the OTHER registry's .source is given a store in THIS registry
+            # through registry.add (e.g. a fixture store substituted for a production input)
+            return self.add({"k": "src", "deps": [], "scope": self.scope(), "foreign": kind}, hashable=True)
         dependent = bool(self.refs) and d(st.sampled_from([True, False, False]))
         xdeps = []
         if self.xdeps and self.refs and not dependent and d(st.integers(0, 1)) == 0:
@@ -734,7 +743,7 @@ def arg_refs(a, out=None, through_opaque=False):
         out = []
     if "n" in a or "u" in a:
         out.append(a)
-    elif "c" in a:
+    elif "c" in a or "st" in a:
         pass
     elif "O" in a:
         if through_opaque:
@@ -811,7 +820,7 @@ def strict_ancestors(spec, i):
 
 
 def arg_depth(a):
-    if "c" in a or "n" in a or "u" in a:
+    if "c" in a or "n" in a or "u" in a or "st" in a:
         return 0
     if "D" in a:
         return 1 + max([0] + [max(arg_depth(k), arg_depth(v)) for k, v in a["D"]])
